@@ -439,6 +439,8 @@ pub struct ClientCfg {
     pub wss: bool,
     pub handshake_timeout_ms: u64,
     pub channel_timeout_ms: u64,
+    /// a second remote: UDP, `127.0.0.1:<port>` -> TARGET
+    pub udp_lport: Option<u16>,
 }
 
 /// Spawn the real `client_main_inner` with one TCP remote `127.0.0.1:lport -> TARGET`.
@@ -447,7 +449,13 @@ pub fn spawn_client(cfg: ClientCfg, sh: Arc<Shared>) -> tokio::task::JoinHandle<
     let ms = |x: u64| OptionalDuration::from(Duration::from_millis(x));
     let args = ClientArgs {
         server: ServerUrl::from_str(&format!("{}://127.0.0.1:{sport}/ws", if cfg.wss { "wss" } else { "ws" })).expect("server url"),
-        remote: vec![Remote::from_str(&format!("127.0.0.1:{lport}:{TARGET_HOST}:{TARGET_PORT}")).expect("remote")],
+        remote: {
+            let mut v = vec![Remote::from_str(&format!("127.0.0.1:{lport}:{TARGET_HOST}:{TARGET_PORT}")).expect("remote")];
+            if let Some(u) = cfg.udp_lport {
+                v.push(Remote::from_str(&format!("127.0.0.1:{u}:{TARGET_HOST}:{TARGET_PORT}/udp")).expect("udp remote"));
+            }
+            v
+        },
         keepalive: cfg.keepalive_ms.map_or(OptionalDuration::NONE, |(i, _)| ms(i)),
         keepalive_timeout: cfg.keepalive_ms.map_or(OptionalDuration::NONE, |(_, t)| ms(t)),
         max_retry_count: cfg.max_retry_count,
